@@ -19,3 +19,18 @@ def model_ints(model, prefix):
         if k.startswith(prefix):
             return [int(x) for x in re.findall(r"-?\d+", str(v))]
     return None
+
+
+_REQ = None
+
+
+def is_known(witness_class):
+    """True when the committed known-findings file lists this witness class (the driver then keeps searching)."""
+    global _REQ
+    return witness_class in ((_REQ or {}).get("known") or [])
+
+
+def request():  # noqa: F811  (keeps the request for is_known)
+    global _REQ
+    _REQ = json.loads(sys.stdin.read() or "{}")
+    return _REQ
